@@ -40,7 +40,7 @@ DIMS_T = DIMS_Q + [(1, 3, 2, 3), (2, 3, 3, 3), (3, 2, 2, 2), (1, 1, 3, 3), (3, 1
 
 def cells(tier, seed):
     out = []
-    reps = 2 if tier == "quick" else 6
+    reps = 2 if tier == "quick" else 8
     for ak in build.APPROX_KINDS:
         for (Dx, Dy, Dk, Da) in (DIMS_Q if tier == "quick" else DIMS_T):
             Da_ = None if ak in ("lrbf", "lsem") else max(Da, Dy, Dk)
